@@ -43,6 +43,10 @@ Inline <b>raw</b> and <xmp>filtered</xmp> html, [dangerous](javascript:alert(1))
 1. one
 2. two
 
+    indented code
+
+![image alt](https://e.example/i.png "image title")
+
 ``` rust extra meta
 fn main() {}
 ```
@@ -101,6 +105,7 @@ class Tables:
         self.formats = kv["formats"].split(",")
         self.styles = kv["styles"].split(",")
         self.unset = kv["unset"].split(",")
+        self.optfields = kv["optfields"].split(",")
         self.gfm = kv["gfm"].split(",")
         self.conflicts = kv["conflicts"].split(",")
         self.gated = kv["gated"]
@@ -581,14 +586,9 @@ def sensitivity(c, T, vh):
     when only that option changes (library only).  An option invisible everywhere would make a wrong
     wiring of its flag invisible to cli.run."""
     probes = {"header_ids": "header_ids=702d", "front_matter_delimiter": "front_matter_delimiter=2d2d2d", "default_info_string": "default_info_string=7079",
-              "width": "width=30", "list_style": "list_style=plus"}
+              "width": "width=30", "list_style": "list_style=plus", "ol_width": "ol_width=6"}
     ctx = {"tagfilter": "unsafe=1", "relaxed_tasklist_matching": "tasklist=1", "tasklist_classes": "tasklist=1", "relaxed_autolinks": "autolink=1"}
-    plan = vlib.run_one(vlib.DRIVER, "cli_plan -")
-    fields = []
-    all_on = vlib.run_one(vlib.DRIVER, "cli_plan " + ",".join([f"{b}=1" for b in T.bools] + ["extensions=" + "+".join(T.exts), "header_ids=78", "front_matter_delimiter=78", "default_info_string=78"]))
-    for kv in all_on.split(" ")[1].split(","):
-        k = kv.split("=")[0]
-        fields.append(k)
+    fields = list(T.optfields)
     lines, keys = [], []
     for fmt in T.formats:
         for k in fields:
